@@ -46,6 +46,10 @@ def strategy(draw):
         chroms.append(style + "X")
     if draw(st.integers(0, 3)) == 0:
         chroms.append(style + "Y")
+    if draw(st.integers(0, 4)) == 0:
+        # two unplaced contigs of one family, whose names differ only deep inside the accession: they sort after the
+        # sex chromosomes, by name (seeded change C04m gave them one sort key, so their rows interleaved)
+        chroms += [style + "1_KI270706v1_random", style + "1_KI270707v1_random"]
     return {
         "chroms": chroms, "seed": draw(st.integers(0, 2 ** 31)),
         "clusters": draw(st.one_of(st.integers(1, 3), st.integers(2, 12))), "max_in_cluster": draw(st.integers(1, 6)),
